@@ -39,7 +39,37 @@ const (
 	spI = 0
 	spD = 1
 	spO = 2
+	spN = 3 // written as an explicit null (`key:`): Go reads it like an absent key; needs SkipValidation
 )
+
+// sites where an explicit null can be written and reaches Normalize (the schema rejects it: SkipValidation loads only)
+var c11Nullable = map[string]bool{"build.dockerfile": true, "network.name": true, "volume.name": true, "secret.name": true, "config.name": true, "external.name": true}
+
+// where / how the *default* shows in the project JSON when it differs from Path / Dflt
+var c11DefaultView = map[string]struct {
+	Path []any
+	Want any
+}{
+	"build.context":     {nil, "$ROOT"},
+	"devices.count":     {nil, float64(-1)},
+	"gpus.count":        {nil, float64(-1)},
+	"env_file.required": {[]any{"services", "a", "env_file", 0}, "$ROOT/e.env"},
+}
+
+// c11Eff is the spelling that is actually written for a site in the scenario as given (EXP)
+func c11Eff(sc c11Scenario, id string) int {
+	s := sc.Spell[id]
+	if id == "default.network" && s == spD && (sc.NoDefUse || (sc.OthersOff && sc.Spell["service.networks"] == spO)) {
+		return spI // a declared but unused network stays: writing it out is only "the default" when some service uses `default`
+	}
+	if s == spN && !(c11Nullable[id] && sc.Skips&1 != 0) {
+		return spI
+	}
+	if id == "build.dockerfile" && sc.Inline && (s == spD || s == spO) {
+		return spI // dockerfile and dockerfile_inline exclude each other
+	}
+	return s
+}
 
 type c11SiteDef struct {
 	ID   string
@@ -85,6 +115,9 @@ type c11Scenario struct {
 	OthersOff bool           `json:"others_off"` // every other service is attached to `other` only, so that `a` alone decides about `default`
 	NullRes   bool           `json:"null_res"`   // write a resource without attributes as `key:` (null) instead of `{}`
 	NoDefUse  bool           `json:"no_def_use"` // no service is attached to `default` (all use `other` / network_mode)
+	Dep2      int            `json:"dep2"`       // 1: a second dependency `b2` is written with defaults next to `b`; 2: and (override origin) the later file re-specifies its condition
+	Skips     int            `json:"skips"`      // bit 0: SkipValidation, bit 1: SkipInterpolation (both loads)
+	Inline    bool           `json:"inline"`     // the build section has dockerfile_inline (no dockerfile default then)
 }
 
 // c11Build renders the files of a scenario; implicit=true turns every D into I.
@@ -110,6 +143,9 @@ func c11Build(sc c11Scenario, implicit bool) (files map[string]string, configFil
 				l2["service.networks"] = 1
 			}
 		case "override":
+			if sc.Dep2 == 2 {
+				l2["depends_on.condition"] = 0 // the first file lists b and b2, the second one re-specifies b2
+			}
 			// every file is validated once merged: the first one cannot hold `required` without `condition`
 			if l2["depends_on.condition"] == 1 {
 				l2["depends_on.required"] = 1
@@ -118,11 +154,8 @@ func c11Build(sc c11Scenario, implicit bool) (files map[string]string, configFil
 		sc.Layer = l2
 	}
 	sp := func(id string) int {
-		s := sc.Spell[id]
-		if id == "default.network" && s == spD && (sc.NoDefUse || (sc.OthersOff && sc.Spell["service.networks"] == spO)) {
-			return spI // a declared but unused network stays: writing it out is only "the default" when some service uses `default`
-		}
-		if implicit && s == spD {
+		s := c11Eff(sc, id)
+		if implicit && (s == spD || s == spN) {
 			return spI
 		}
 		return s
@@ -142,6 +175,8 @@ func c11Build(sc c11Scenario, implicit bool) (files map[string]string, configFil
 			mp[key] = core.DeepCopyVal(site(id).Dflt)
 		case spO:
 			mp[key] = core.DeepCopyVal(site(id).Oth)
+		case spN:
+			mp[key] = nil
 		}
 	}
 	absent := map[string]bool{}
@@ -161,8 +196,16 @@ func c11Build(sc c11Scenario, implicit bool) (files map[string]string, configFil
 
 	if !absent["build"] {
 		sub(at("build.base"), "build")["target"] = "t"
+		if sc.Inline {
+			sub(at("build.base"), "build")["dockerfile_inline"] = "FROM x"
+		}
 		if sp("build.context") != spI {
 			val(sub(at("build.context"), "build"), "context", "build.context")
+			if sc.Origin == "extends-file-subdir" && sc.Layer["build.context"]&1 == 1 && sp("build.context") == spD {
+				// the documented default is the *project* directory (pinned by compose-go's own TestLoadExtendsSameFile /
+				// TestLoadExtendsMultipleFiles); seen from a base file in sub/ that directory is spelled `..`
+				sub(at("build.context"), "build")["context"] = ".."
+			}
 		}
 		if sp("build.dockerfile") != spI {
 			val(sub(at("build.dockerfile"), "build"), "dockerfile", "build.dockerfile")
@@ -180,7 +223,9 @@ func c11Build(sc c11Scenario, implicit bool) (files map[string]string, configFil
 		at("secrets")["secrets"] = []any{s}
 	}
 	if !absent["env_file"] {
-		if sp("env_file.required") == spI && sc.ListDeps {
+		// both spellings must carry the same sibling attributes: the short string form cannot hold `format`, so it is
+		// only used when the scenario has none
+		if sp("env_file.required") == spI && sc.ListDeps && !sc.NullRes {
 			at("env_file")["env_file"] = []any{"e.env"}
 		} else {
 			e := map[string]any{"path": "e.env"}
@@ -253,6 +298,12 @@ func c11Build(sc c11Scenario, implicit bool) (files map[string]string, configFil
 				}
 				leaves = append(leaves, depLeaf{sc.Layer["depends_on.required"] & 1, "b", "required", rv})
 			}
+			if sc.Dep2 > 0 {
+				leaves = append(leaves, depLeaf{sc.Layer["depends_on.condition"] & 1, "b2", "condition", "service_started"})
+			}
+		}
+		if sc.Dep2 == 2 && sc.Origin == "override" {
+			leaves = append(leaves, depLeaf{1, "b2", "condition", "service_healthy"})
 		}
 	}
 	implied := []struct{ unit, id, entry string }{{"links", "links.depends_on", "c"}, {"ipc", "ipc.depends_on", "d"}, {"volumes_from", "volumes_from.depends_on", "e"}}
@@ -287,6 +338,13 @@ func c11Build(sc c11Scenario, implicit bool) (files map[string]string, configFil
 		if dm, ok := layers[listForm]["depends_on"].(map[string]any); ok {
 			// the same layer also spells other entries: the long form is the only way to write both
 			sub(dm, "b")["condition"] = "service_started"
+			if sc.Dep2 > 0 {
+				if _, has := dm["b2"]; !has {
+					sub(dm, "b2")["condition"] = "service_started"
+				}
+			}
+		} else if sc.Dep2 > 0 {
+			layers[listForm]["depends_on"] = []any{"b", "b2"}
 		} else {
 			layers[listForm]["depends_on"] = []any{"b"}
 		}
@@ -334,7 +392,7 @@ func c11Build(sc c11Scenario, implicit bool) (files map[string]string, configFil
 	}
 
 	others := map[string]any{}
-	for _, n := range []string{"b", "c", "d", "e"} {
+	for _, n := range []string{"b", "b2", "c", "d", "e"} {
 		o := map[string]any{"image": "i"}
 		if sc.NoDefUse || sc.OthersOff {
 			o["networks"] = []any{"other"}
@@ -553,7 +611,7 @@ func c11RealMeta(raw json.RawMessage) any {
 	}
 	load := func(implicit bool) (map[string]any, string, bool) {
 		files, cfs, declares := c11Build(sc, implicit)
-		out := core.LoadOutcome(core.LoadReq{Files: files, ConfigFiles: cfs, ProjectName: "proj"})
+		out := core.LoadOutcome(core.LoadReq{Files: files, ConfigFiles: cfs, ProjectName: "proj", SkipValidation: sc.Skips&1 != 0, SkipInterpolation: sc.Skips&2 != 0})
 		b, _ := json.Marshal(out)
 		var o struct {
 			Ok  map[string]any `json:"ok"`
@@ -600,7 +658,7 @@ func c11RealMeta(raw json.RawMessage) any {
 		absent[u] = true
 	}
 	for _, s := range c11Sites {
-		if sc.Spell[s.ID] != spO || absent[c11UnitOf(s.ID)] {
+		if c11Eff(sc, s.ID) != spO || absent[c11UnitOf(s.ID)] {
 			continue
 		}
 		want := s.Want
@@ -611,6 +669,53 @@ func c11RealMeta(raw json.RawMessage) any {
 		got, ok := c11Get(exp, s.Path)
 		if !ok || !reflect.DeepEqual(got, want) {
 			res.Failed = append(res.Failed, c11Check{"clobbered", s.ID + "@" + sc.Origin, fmt.Sprintf("%s was written as %v but the project has %v", s.ID, want, got)})
+		}
+	}
+	// (5) every site that is not written with another value shows the documented default
+	{
+		for _, s := range c11Sites {
+			if c11Eff(sc, s.ID) == spO || absent[c11UnitOf(s.ID)] || s.ID == "default.network" {
+				continue
+			}
+			if s.ID == "service.networks" && sc.NoDefUse {
+				continue
+			}
+			path, want := s.Path, any(nil)
+			if v, ok := c11DefaultView[s.ID]; ok {
+				if v.Path != nil {
+					path = v.Path
+				}
+				want = v.Want
+			}
+			if want == nil {
+				b, _ := json.Marshal(s.Dflt)
+				json.Unmarshal(b, &want)
+			}
+			if s.ID == "env_file.required" && sc.NullRes {
+				// with a `format` the project renders the entry in long form (the short form is path-only)
+				want = map[string]any{"path": "$ROOT/e.env", "required": true, "format": "c11raw"}
+			}
+			got, ok := c11Get(exp, path)
+			if s.ID == "build.dockerfile" && sc.Inline {
+				if ok {
+					res.Failed = append(res.Failed, c11Check{"default-value", s.ID + "@" + sc.Origin, fmt.Sprintf("dockerfile_inline is set, yet the project has dockerfile %v", got)})
+				}
+				continue
+			}
+			if !ok || !reflect.DeepEqual(got, want) {
+				res.Failed = append(res.Failed, c11Check{"default-value", s.ID + "@" + sc.Origin, fmt.Sprintf("%s is not written with another value; the project should show the default %v but has %v", s.ID, want, got)})
+			}
+		}
+		if sc.Dep2 > 0 && !absent["depends_on"] {
+			cond := "service_started"
+			if sc.Dep2 == 2 && sc.Origin == "override" {
+				cond = "service_healthy"
+			}
+			want := map[string]any{"condition": cond, "required": true}
+			got, _ := c11Get(exp, []any{"services", "a", "depends_on", "b2"})
+			if !reflect.DeepEqual(got, any(want)) {
+				res.Failed = append(res.Failed, c11Check{"default-value", "depends_on.b2@" + sc.Origin, fmt.Sprintf("depends_on.b2 should be %v but is %v", want, got)})
+			}
 		}
 	}
 	// (3) default network iff
@@ -626,7 +731,7 @@ func c11RealMeta(raw json.RawMessage) any {
 			}
 		}
 		_, has := c11Get(p, []any{"networks", "default"})
-		if has != (used || (declares && which == "exp") || (sc.Spell["default.network"] == spO)) {
+		if has != (used || (declares && which == "exp") || (c11Eff(sc, "default.network") == spO)) {
 			res.Failed = append(res.Failed, c11Check{"default-network-iff", sc.Origin, fmt.Sprintf("networks.default present=%v, used by a service=%v, declared=%v", has, used, declares)})
 		}
 		// (4) resource names
@@ -641,7 +746,7 @@ func c11RealMeta(raw json.RawMessage) any {
 				}
 				explicit := false
 				for _, s := range c11Sites {
-					if len(s.Path) == 3 && s.Path[0] == sec && s.Path[1] == key && sc.Spell[s.ID] == spO {
+					if len(s.Path) == 3 && s.Path[0] == sec && s.Path[1] == key && c11Eff(sc, s.ID) == spO {
 						explicit = true
 					}
 				}
@@ -727,6 +832,21 @@ func c11RandomScenario(r *rand.Rand) c11Scenario {
 	sc.ListDeps = r.Intn(2) == 0
 	sc.NetForm = r.Intn(3)
 	sc.OthersOff = r.Intn(4) == 0
+	sc.Dep2 = r.Intn(3)
+	sc.Skips = []int{0, 0, 0, 1, 3}[r.Intn(5)]
+	sc.Inline = r.Intn(4) == 0
+	if sc.Skips&1 != 0 {
+		ids := make([]string, 0, len(c11Nullable))
+		for id := range c11Nullable {
+			ids = append(ids, id)
+		}
+		sort.Strings(ids)
+		for _, id := range ids {
+			if r.Intn(3) == 0 {
+				sc.Spell[id] = spN
+			}
+		}
+	}
 	sc.NullRes = r.Intn(2) == 0
 	if r.Intn(5) == 0 {
 		sc.NoDefUse = true
@@ -813,6 +933,57 @@ func c11Oracle(ctx *core.Ctx) {
 			nd.Spell["service.networks"] = spO
 			ctx.Count("meta-exh-no-default-use")
 			ctx.Add("c11.meta", nd)
+		}
+	}
+	// explicit nulls (read like an absent key by Normalize), dockerfile_inline, string booleans that only the
+	// interpolation cast would turn into bools, and a second dependency next to `b` (optionally re-specified later)
+	for _, origin := range c11Origins {
+		for layer := 0; layer < 2; layer++ {
+			mk := func() c11Scenario {
+				sc := c11NewScenario(origin)
+				for _, k := range c11LayerKeys {
+					sc.Layer[k] = layer
+				}
+				return sc
+			}
+			ids := make([]string, 0, len(c11Nullable))
+			for id := range c11Nullable {
+				ids = append(ids, id)
+			}
+			sort.Strings(ids)
+			for _, id := range ids {
+				sc := mk()
+				sc.Skips = 1
+				sc.Spell[id] = spN
+				ctx.Count("meta-exh-explicit-null")
+				ctx.Add("c11.meta", sc)
+			}
+			for _, spell := range []int{spI, spN} {
+				for _, skips := range []int{0, 1, 3} {
+					sc := mk()
+					sc.Inline, sc.Skips = true, skips
+					sc.Spell["build.dockerfile"] = spell
+					ctx.Count("meta-exh-dockerfile-inline")
+					ctx.Add("c11.meta", sc)
+				}
+			}
+			for _, skips := range []int{1, 3} {
+				sc := mk()
+				sc.Skips = skips
+				ctx.Count("meta-exh-skips")
+				ctx.Add("c11.meta", sc)
+			}
+			for dep2 := 1; dep2 <= 2; dep2++ {
+				for _, list := range []bool{false, true} {
+					for _, spell := range []int{spI, spD} {
+						sc := mk()
+						sc.Dep2, sc.ListDeps = dep2, list
+						sc.Spell["depends_on.condition"] = spell
+						ctx.Count("meta-exh-second-dependency")
+						ctx.Add("c11.meta", sc)
+					}
+				}
+			}
 		}
 	}
 	// an extended base that lives in another directory: only the build section (the other units carry paths
